@@ -20,7 +20,7 @@ Local Open Scope string_scope.
 (* ------------------------------------------------------------------ strings *)
 
 Definition is_upper_ascii (c : ascii) : bool :=
-  let n := nat_of_ascii c in (65 <=? n) && (n <=? 90).
+  let n := nat_of_ascii c in Nat.leb 65 n && Nat.leb n 90.
 
 Definition lower_ascii (c : ascii) : ascii :=
   if is_upper_ascii c then ascii_of_nat (nat_of_ascii c + 32) else c.
@@ -169,7 +169,7 @@ Definition local_specs (p : pkg) : list tspec :=
 (* number of constants declared with type identifier T, over all files *)
 Definition consts_decl (T : string) (d : decl) : nat :=
   match d with
-  | DConst ty names => if ty =? T then length names else 0
+  | DConst ty names => if ty =? T then List.length names else 0
   | _ => 0
   end.
 Definition consts_of (p : pkg) (T : string) : nat :=
@@ -303,7 +303,7 @@ Definition parse_common (c : subcmd) (args : list string) : pres :=
   match args with
   | [] => PUsage2                                       (* len(flag.Args()) <= 1 *)
   | _ =>
-      match parse_args c (length args) args [] with
+      match parse_args c (List.length args) args [] with
       | PBad => PUsage2
       | PHelp => PExit0
       | PFlags vals rest =>
@@ -450,14 +450,14 @@ Fixpoint enum_walk_specs (T : string) (l : list tspec) : bool :=   (* true = fat
 
 Fixpoint enum_walk (p : pkg) (T : string) (ds : list decl) (n : nat) : md_res :=
   match ds with
-  | [] => if n =? 0 then MSkip else MGen
+  | [] => if Nat.eqb n 0 then MSkip else MGen
   | DType l :: ds' => if enum_walk_specs T l then MFatal DgAlias else enum_walk p T ds' n
   | DFunc l :: ds' => if enum_walk_specs T l then MFatal DgAlias else enum_walk p T ds' n
   | DConst ty names :: ds' =>
       if negb (ty =? T) then enum_walk p T ds' n
       else match names with
            | [] => enum_walk p T ds' n
-           | _ => if type_is_int p T then enum_walk p T ds' (n + length names)
+           | _ => if type_is_int p T then enum_walk p T ds' (n + List.length names)
                   else MFatal DgNonIntConst
            end
   | DComment _ :: ds' => enum_walk p T ds' n
